@@ -13,7 +13,7 @@ import (
 
 //verif:bounds C09 HC09_stateless: every method x (no bias | one bias variant) through the real MakeDecision with the service registries; A=3 known alternatives (considered all - so internal slices are shared - or all-but-one), K=2, JSON-shaped request whose slices carry the spare capacity encoding/json leaves; heuristics with currentChoice absent / taken from choseToMake / known-but-not-considered; two concrete value families, symbolic weights, ratios and draws
 //verif:bounds C09 HC09_history: request X, then a different request Y (other method or bias), then X again on the same registries: first and third responses equal, the first response untouched by the later calls
-//verif:outside C09: bias sequences longer than 1 for the report-faithfulness clauses (C07 checks threading for length 2); histories longer than 3
+//verif:outside C09: bias sequences longer than 1 (quick) / 2 (thorough) for the report-faithfulness clauses; histories longer than 3
 
 func c09reportFaithful(tag string, s *BiasStep) {
 	switch p := s.Props.(type) {
@@ -41,8 +41,22 @@ func c09reportFaithful(tag string, s *BiasStep) {
 //verif:harness HC09_stateless mode=REAL reach=answered,rejected-or-error,cc-considered,all-considered,bias-fired
 func HC09_stateless() {
 	c := ChooseStd(BiasVariants)
-	dm := c.Build("")
-	c07known(c.Method, []string{c.Variant})
+	second := "none"
+	if rt.Thorough() && c.Variant != "" {
+		// thorough tier: a second bias follows, so that "not altered by later stages" has a later bias stage;
+		// with two biases the draws follow a fixed pattern and numeric parameters are fixed (shape-level, as in C07 L2)
+		second = rt.OneOf("second-bias", "none", "criteriaOmission", "preferenceReversal", "anchoring", "fatigue", "criteriaConcealment")
+	}
+	if second != "none" {
+		rt.SetDrawMode(1)
+	}
+	dm := c.BuildOpt("", second != "none")
+	variants := []string{c.Variant}
+	if second != "none" {
+		dm.Biases = append(dm.Biases, Bias(second, DefaultPropsOpt(second, dm, "b2.", true)))
+		variants = append(variants, second)
+	}
+	c07known(c.Method, variants)
 	snap := rt.Snapshot(dm)
 	rt.Own(dm)
 	rt.Epoch()
@@ -107,5 +121,112 @@ func HC09_history() {
 	if !out1.Panicked && !out3.Panicked {
 		rt.Reach("answered-twice")
 		rt.Assert("C09.same-response-whatever-came-before", rt.DeepEqual(out1.Choice, out3.Choice))
+	}
+}
+
+// c09props: the bias entry of a request with only its mandatory properties (rich=false) or with every
+// optional property set to a non-default value (rich=true).
+func c09props(v string, dm *model.DecisionMaker, rich bool) map[string]interface{} {
+	anch := func(applier map[string]interface{}) map[string]interface{} {
+		return map[string]interface{}{
+			"anchoringAlternatives": []interface{}{map[string]interface{}{"alternative": dm.KnownAlternatives[0].Id, "coefficient": float64(1)}},
+			"loss":            map[string]interface{}{"function": "linear", "params": map[string]interface{}{"a": 0.5, "b": float64(0)}},
+			"gain":            map[string]interface{}{"function": "linear", "params": map[string]interface{}{"a": 0.25, "b": float64(0)}},
+			"referencePoints": map[string]interface{}{"function": "ideal"},
+			"applier":         applier,
+		}
+	}
+	switch v {
+	case "criteriaOmission":
+		if rich {
+			return map[string]interface{}{"ratio": 0.5, "min": float64(1), "max": float64(1), "ordering": "random", "randomSeed": float64(5)}
+		}
+		return map[string]interface{}{"ratio": 0.5}
+	case "preferenceReversal":
+		if rich {
+			return map[string]interface{}{"ratio": 0.5, "min": float64(2), "max": float64(2), "ordering": "strongest"}
+		}
+		return map[string]interface{}{"ratio": 0.5}
+	case "fatigue":
+		m := map[string]interface{}{"function": "const", "params": map[string]interface{}{"value": 0.5}}
+		if rich {
+			m["randomSeed"] = float64(21)
+			m["allowedValuesRangeScaling"] = float64(2)
+			m["disallowNegativeValues"] = true
+		}
+		return m
+	case "criteriaConcealment":
+		if rich {
+			return map[string]interface{}{"randomSeed": float64(22), "newCriterionScaling": float64(2), "newCriterionImportance": 0.5,
+				"referenceCriterionType": "randomUniform", "newCriterionRandomSeed": float64(3), "disallowNegativeValues": true}
+		}
+		return map[string]interface{}{}
+	case "criteriaMixing":
+		if rich {
+			return map[string]interface{}{"randomSeed": float64(23), "mixingRatio": 0.25, "referenceCriterionType": "randomUniform", "newCriterionRandomSeed": float64(3)}
+		}
+		return map[string]interface{}{}
+	case "anchoring":
+		if rich {
+			return anch(map[string]interface{}{"function": "inline", "params": map[string]interface{}{"applyOnNotConsidered": true}})
+		}
+		return anch(map[string]interface{}{"function": "inline"})
+	case "anchoring/newCriterion":
+		if rich {
+			return anch(map[string]interface{}{"function": "newCriterion", "params": map[string]interface{}{"randomSeed": float64(7),
+				"referenceCriterionType": "randomUniform", "newCriterionRandomSeed": float64(3), "newCriterionImportance": 0.5}})
+		}
+		return anch(map[string]interface{}{"function": "newCriterion", "params": map[string]interface{}{}})
+	}
+	panic("unknown variant " + v)
+}
+
+// c09methodParams strips (rich=false) or sets (rich=true) the optional parameters of the method.
+func c09methodParams(dm *model.DecisionMaker, rich bool) {
+	mp := dm.MethodParameters
+	for _, k := range []string{"randomSeed", "randomAlternativesOrdering", "drawResolution", "currentChoice", "electreDistillation"} {
+		delete(mp, k)
+	}
+	if !rich {
+		return
+	}
+	switch dm.PreferenceFunction {
+	case "majorityHeuristic":
+		mp["randomSeed"], mp["randomAlternativesOrdering"], mp["drawResolution"], mp["currentChoice"] = float64(11), true, "random", dm.ChoseToMake[0]
+	case "aspectEliminationHeuristic":
+		mp["randomSeed"], mp["randomAlternativesOrdering"] = float64(12), true
+	case "satisfactionHeuristic":
+		mp["randomSeed"], mp["randomAlternativesOrdering"], mp["currentChoice"] = float64(13), true, dm.ChoseToMake[0]
+	case "electreIII":
+		mp["electreDistillation"] = map[string]interface{}{"a": -0.25, "b": 0.5}
+	}
+}
+
+//verif:bounds C09 HC09_history_defaults: request X carrying only mandatory parameters (method and one bias variant), then the same request with every optional parameter of the method, the bias, its applier, reference-criterion strategy, ordering and bounding set to a non-default value, then X again on the same registries: first and third responses equal (a default that is kept in a shared object and overwritten by the decoder shows here); every method x every bias variant, considered = all / all-but-one, fixed draw pattern, symbolic method weights where the method has them
+//verif:harness HC09_history_defaults mode=REAL reach=answered-twice,rich-answer-differs
+func HC09_history_defaults() {
+	method := rt.OneOf("method", Methods...)
+	variant := rt.OneOf("bias", BiasVariants...)
+	c := StdChoice{Method: method, CC: "none", AllConsidered: !rt.Bool("one-not-considered"), Values: 1}
+	rt.SetDrawMode(1)
+	c07known(method, []string{variant})
+	build := func(rich bool) *model.DecisionMaker {
+		dm := c.BuildOpt("", false)
+		c09methodParams(dm, rich)
+		dm.Biases = []interface{}{Bias(variant, c09props(variant, dm, rich))}
+		return dm
+	}
+	out1 := Decide(build(false))
+	snap1 := rt.Snapshot(out1.Choice)
+	outY := Decide(build(true))
+	out3 := Decide(build(false))
+	rt.Assert("C09.earlier-response-untouched-by-later-calls", rt.Same(snap1, out1.Choice))
+	rt.Assert("C09.same-verdict-whatever-came-before", out1.Panicked == out3.Panicked)
+	if !out1.Panicked && !out3.Panicked {
+		rt.Reach("answered-twice")
+		rt.Assert("C09.same-response-whatever-came-before", rt.DeepEqual(out1.Choice, out3.Choice))
+		if !outY.Panicked && !rt.DeepEqual(out1.Choice, outY.Choice) {
+			rt.Reach("rich-answer-differs")
+		}
 	}
 }
